@@ -44,6 +44,20 @@ pub fn set_command_sender(sender: Option<std::sync::mpsc::Sender<DebugMessage>>)
 /// deliver `command` at the first loop head whose number (counted from 0 since the session started) is >= `at_step`
 pub fn script_command(at_step: usize, command: String) {
     SCRIPT.with(|s| s.borrow_mut().push_back((at_step, command)));
+    // a command that is due at the very next loop head is sent at once: it waits in the channel, as a command does that
+    // the debugger sent before the evaluation began
+    after_poll();
+}
+
+/// called right after the umbilical was polled at a loop head: a command due at the NEXT loop head is sent now, so that it
+/// waits in the channel between two polls — nothing that runs in between (a primitive, the reader between two forms of a
+/// load, the entry of a nested evaluation) may lose it
+pub fn after_poll() {
+    let next_head = STEPS.with(|s| s.get());
+    let due = SCRIPT.with(|s| s.borrow().front().map(|(at, _)| *at <= next_head).unwrap_or(false));
+    if due {
+        send_next_command();
+    }
 }
 
 pub fn steps() -> usize {
